@@ -66,7 +66,7 @@ int main(int argc, char** argv) {
              "distinct = FNV of case + multi-bunch output; trivial = Identity";
     R.sample_every = 50;
     const bool T = R.thorough();
-    std::vector<unsigned> ns = T ? std::vector<unsigned>{8, 12, 13, 16, 24} : std::vector<unsigned>{8};
+    std::vector<unsigned> ns = T ? std::vector<unsigned>{8, 12, 13, 16, 24} : std::vector<unsigned>{8, 9};
     std::vector<unsigned> nbs = T ? std::vector<unsigned>{2, 3, 4} : std::vector<unsigned>{2};
     for (unsigned n : ns) for (unsigned nb : nbs) for (int kind = 0; kind < NKIND; kind++) for (unsigned it = 1; it <= 4; it++)
     for (int var = 0; var < 4; var++) for (int dv = 0; dv < 2; dv++) {
@@ -139,6 +139,6 @@ int main(int argc, char** argv) {
             }
         }
     }
-    R.bound_done(std::string("map classes x n x nb x it x 3 parameter variants (+ off-grid rows for y-kicks) x 2 data variants, ") + (T ? "n{8,12,13} nb{2,3}" : "n{8} nb{2}"));
+    R.bound_done(std::string("map classes x n x nb x it x 3 parameter variants (+ off-grid rows for y-kicks) x 2 data variants, ") + (T ? "n{8,12,13,16,24} nb{2,3,4}" : "n{8,9} nb{2}"));
     return R.finish();
 }
